@@ -1067,8 +1067,11 @@ func runC18Numbers(ctx *Ctx) {
 						// inexact: exactly Go's two-step conversion float32(x.Float64()) (C18.float_ok_iff; d18b: no longer
 						// "either neighbour") — which differs from the nearest float32 only in the double-rounding band
 						// (C18.float32StoresNearest_counterexample; counted in c18_d18b.go)
+						// The property does not say which rounding an unrepresentable number gets, so the correctly rounded
+						// float32 (n, what a repair of the double rounding would store) is accepted too; which of the two the
+						// code stores is compared by the correspondence (a drift there is a broken tie, not a failing input).
 						f64, _ := x.Float64()
-						good = float32(got) == float32(f64) && math.Signbit(got) == math.Signbit(f64)
+						good = (float32(got) == float32(f64) && math.Signbit(got) == math.Signbit(f64)) || (float32(got) == n && math.Signbit(got) == math.Signbit(float64(n)))
 					}
 				} else {
 					n, _ := x.Float64()
